@@ -121,27 +121,35 @@ impl S {
     }
 }
 
+impl S {
+    fn params(&mut self, m: &str, efc: &str, efs: &str) -> String {
+        // SAFETY: the harness is single-threaded while it runs a stream
+        unsafe {
+            std::env::set_var("NERVUSDB_HNSW_M", m);
+            std::env::set_var("NERVUSDB_HNSW_EF_CONSTRUCTION", efc);
+            std::env::set_var("NERVUSDB_HNSW_EF_SEARCH", efs);
+        }
+        self.eng = None;
+        self.dir = Some(tempfile::tempdir().expect("tempdir"));
+        self.shadow.clear();
+        self.deleted.clear();
+        self.recent.clear();
+        self.next_ext = 1;
+        match self.open() {
+            Ok(()) => "ok".into(),
+            Err(e) => format!("err | {}", e),
+        }
+    }
+}
+
 impl State for S {
     fn step(&mut self, ws: &[&str]) -> String {
+        if self.eng.is_none() && ws.first() != Some(&"params") {
+            // a case without `params` (e.g. a shrunk replay) runs with the defaults, like the model
+            self.params("16", "200", "200");
+        }
         match ws {
-            ["params", m, efc, efs] => {
-                // SAFETY: the harness is single-threaded while it runs a stream
-                unsafe {
-                    std::env::set_var("NERVUSDB_HNSW_M", m);
-                    std::env::set_var("NERVUSDB_HNSW_EF_CONSTRUCTION", efc);
-                    std::env::set_var("NERVUSDB_HNSW_EF_SEARCH", efs);
-                }
-                self.eng = None;
-                self.dir = Some(tempfile::tempdir().expect("tempdir"));
-                self.shadow.clear();
-                self.deleted.clear();
-                self.recent.clear();
-                self.next_ext = 1;
-                match self.open() {
-                    Ok(()) => "ok".into(),
-                    Err(e) => format!("err | {}", e),
-                }
-            }
+            ["params", m, efc, efs] => self.params(m, efc, efs),
             ["node"] => {
                 let ext = self.next_ext;
                 self.next_ext += 1;
